@@ -26,6 +26,7 @@ void runRoute(const Scn &scn, Out &out);
 void runAuth(const Scn &scn, Out &out);
 void runCopier(const Scn &scn, Out &out);
 void runFs(const Scn &scn, Out &out);
+void runSlot(const Scn &scn, Out &out);
 
 QByteArray errorPage(int code, const QByteArray &reason, bool nullReason);
 // one event-loop turn: timers and queued calls, then deferred deletes
